@@ -62,16 +62,17 @@ mod agg_minmaxsum__pari;
 mod agg_lattice__pari;
 mod neg_rec_after__pari;
 mod agg_empty__pari;
-mod disj__run;
-mod disj__runpar;
-mod disj_nested__ser;
-mod pat_args__exp;
-mod multi_head_disj__par;
-mod neg_in_disj__exppar;
-mod mac_basic__gen;
-mod mac_basic__exp;
-mod mac_nested__par;
-mod mac_disj__exppar;
+mod agg_const_args__ser;
+mod disj__to;
+mod disj__redecl;
+mod disj__exp;
+mod pat_args__par;
+mod rep_expr__exppar;
+mod neg_in_disj__pari;
+mod mac_basic__run;
+mod mac_basic__runpar;
+mod mac_capture__exppar;
+mod mac_gensym_disj__pari;
 
 fn lookup(name: &str) -> fn() -> Box<dyn Driven> {
    match name {
@@ -129,16 +130,17 @@ fn lookup(name: &str) -> fn() -> Box<dyn Driven> {
       "agg_lattice__pari" => agg_lattice__pari::make,
       "neg_rec_after__pari" => neg_rec_after__pari::make,
       "agg_empty__pari" => agg_empty__pari::make,
-      "disj__run" => disj__run::make,
-      "disj__runpar" => disj__runpar::make,
-      "disj_nested__ser" => disj_nested__ser::make,
-      "pat_args__exp" => pat_args__exp::make,
-      "multi_head_disj__par" => multi_head_disj__par::make,
-      "neg_in_disj__exppar" => neg_in_disj__exppar::make,
-      "mac_basic__gen" => mac_basic__gen::make,
-      "mac_basic__exp" => mac_basic__exp::make,
-      "mac_nested__par" => mac_nested__par::make,
-      "mac_disj__exppar" => mac_disj__exppar::make,
+      "agg_const_args__ser" => agg_const_args__ser::make,
+      "disj__to" => disj__to::make,
+      "disj__redecl" => disj__redecl::make,
+      "disj__exp" => disj__exp::make,
+      "pat_args__par" => pat_args__par::make,
+      "rep_expr__exppar" => rep_expr__exppar::make,
+      "neg_in_disj__pari" => neg_in_disj__pari::make,
+      "mac_basic__run" => mac_basic__run::make,
+      "mac_basic__runpar" => mac_basic__runpar::make,
+      "mac_capture__exppar" => mac_capture__exppar::make,
+      "mac_gensym_disj__pari" => mac_gensym_disj__pari::make,
       _ => panic!("no such program variant in this shard: {}", name),
    }
 }
